@@ -52,7 +52,9 @@ BOUNDS = {
         "zero x {alternating, complement}; T(2,2), C(3,1), C(2,2,2): single modifications of 3 base fields x side-wise "
         "assignments (components 1,2,3; C(2,2,2): 2,3 for the first base field only). "
         "step: C(2,2), C(2,2)~, Tensor 2x2 uneven, T(2,2), T(2,2)~ (coefficients +-1, +-2), C(3,2), C(3,2)~ ({-1,0,1,2}^2), "
-        "C(3,3) ({-1,0,1}^4), C(2,2,2) ({-1,0,1}^6); 3 assignments; components 1,2,3; dt factor 0.5 and 1."
+        "C(3,3) ({-1,0,1}^4), C(2,2,2) ({-1,0,1}^6), C(2,2)~ *1e-3, T(2,2) *1e3; 3 assignments; components 1,2,3; dt factor "
+        "0.5 and 1. Scale axis: T(1,1) with flux magnitudes x 1e-12 / 1e12. Purity: flux array per call, grid and "
+        "boundary object digest per assignment; reuse (second discretize on the same dictionary) on every 16th vector."
     ),
     "thorough": (
         "quick + C(2,1): all vectors x all 64 assignments (components 2,3: side-wise); C(2,2): <= 1 zero x 4 assignments, "
@@ -87,6 +89,9 @@ def cases(tier):
     for comps in (1, 2, 3):
         out.append({"part": "sel", "grid": c3, "vec": "lex", "z": 4, "prefix": [], "bcset": "all", "comps": comps})
         out.append({"part": "sel", "grid": t11, "vec": "lex", "z": 5, "prefix": [], "bcset": "all", "comps": comps})
+    for ms in (1e-12, 1e12):  # scale axis of the flux magnitudes (only the sign may matter)
+        out.append({"part": "sel", "grid": t11, "vec": "lex", "z": 5, "prefix": [], "bcset": "all", "comps": 1, "magscale": ms})
+
     def pref(L, z):
         return [p for p in _prefixes(L) if sum(1 for v in p if v == 0) <= z]
 
@@ -121,6 +126,7 @@ def cases(tier):
         (t22, "pm2"), (dict(t22, pert=[[4, [-1, 1]]]), "pm2"),
         ({"kind": "C", "n": [3, 2]}, "m1to2"), ({"kind": "C", "n": [3, 2], "pert": [[5, [1, 0]], [6, [-1, 1]]]}, "m1to2"),
         ({"kind": "C", "n": [3, 3]}, "tern"), (c222, "tern"),
+        (dict(c22, pert=[[4, [1, -1]]], scale=1e-3), "pm2"), (dict(t22, scale=1e3), "pm2"),
     ]
     for spec, coef in steps:
         for comps in (1, 2, 3):
@@ -193,7 +199,7 @@ def _vectors(case, g):
                             yield tuple(int(x) for x in v)
 
 
-def _discretize(g, bc, q, comps):
+def _discretize(g, bc, q, comps, again=False):
     import porepy as pp
 
     kw = "transport"
@@ -201,7 +207,18 @@ def _discretize(g, bc, q, comps):
     up = pp.Upwind(kw)
     up.discretize(g, data)
     md = data[pp.DISCRETIZATION_MATRICES][kw]
+    if again:
+        first = [np.array(md[k].toarray()) for k in (up.upwind_matrix_key, up.bound_transport_dir_matrix_key, up.bound_transport_neu_matrix_key)]
+        up.discretize(g, data)  # reuse of the same data dictionary and argument objects
+        md = data[pp.DISCRETIZATION_MATRICES][kw]
+        second = [np.array(md[k].toarray()) for k in (up.upwind_matrix_key, up.bound_transport_dir_matrix_key, up.bound_transport_neu_matrix_key)]
+        if not all(np.array_equal(a, b) for a, b in zip(first, second)):
+            raise _ReuseMismatch()
     return md[up.upwind_matrix_key], md[up.bound_transport_dir_matrix_key], md[up.bound_transport_neu_matrix_key]
+
+
+class _ReuseMismatch(Exception):
+    pass
 
 
 def _unkron(M, nr, nc, n):
@@ -232,7 +249,7 @@ def _run_sel(case, out):
     is_bnd = np.zeros(nf, dtype=bool)
     is_bnd[bf] = True
     interior = ~is_bnd
-    mag = _magnitudes(nf)
+    mag = _magnitudes(nf) * float(case.get("magscale", 1.0))
     gname = G.grid_name(spec)
     vectors = list(_vectors(case, g))
     for m in _bc_masks(info, dim, case["bcset"]):
@@ -242,11 +259,21 @@ def _run_sel(case, out):
         dir_face[bf[is_dir]] = True
         neu_face = is_bnd & ~dir_face
         bccls = "allDir" if is_dir.all() else ("allNeu" if not is_dir.any() else "mixed")
-        for sv in vectors:
+        dg0 = G.digest(g, bc)
+        for iv, sv in enumerate(vectors):
             s = np.array(sv)
             q = s * mag
+            q_in = q.copy()
             try:
-                Um, Dm, Nm = _discretize(g, bc, q, comps)
+                Um, Dm, Nm = _discretize(g, bc, q_in, comps, again=(iv % 16 == 0))
+                if not np.array_equal(q_in, q):
+                    raise _ReuseMismatch("flux array modified")
+            except _ReuseMismatch as e:
+                out.violate("Upwind.discretize modified its flux argument" if e.args else
+                            "second Upwind.discretize on the same data dictionary gives different matrices",
+                            grid=gname, flux=q, dirichlet_faces=bf[is_dir], components=comps)
+                out.ev("VIOLATION")
+                continue
             except Exception as e:
                 out.violate("Upwind.discretize raised on a valid input", error=repr(e), grid=gname, signs=list(sv),
                             dirichlet_faces=bf[is_dir], components=comps)
@@ -294,6 +321,10 @@ def _run_sel(case, out):
             if not out.samples and key is not None:
                 out.samples.append({"grid": gname, "flux": q.tolist(), "dirichlet_faces": bf[is_dir].tolist(),
                                     "neumann_faces": bf[~is_dir].tolist(), "components": comps})
+        if G.digest(g, bc) != dg0:
+            out.violate("Upwind.discretize modified the grid or the boundary condition object", grid=gname,
+                        dirichlet_faces=bf[is_dir], components=comps, sign_vectors_in_batch=len(vectors))
+            out.ev("VIOLATION")
 
 
 COEFS = {"pm2": (1, -1, 2, -2), "m1to2": (-1, 0, 1, 2), "tern": (-1, 0, 1)}
